@@ -71,6 +71,13 @@ def run(ctx):
       'the algorithm is scripted through the public PolicyFactory parameter',
   ]
   svc.run_rounds(ctx, 'C01', rounds(ctx), walks(ctx))
+  if True:
+    # the repository's own service tests, recorded and judged by VizierTraceLite.tla (step predicates of this property)
+    import c01_repotests
+    import tlc
+    with tlc.Scratch('c01_repotests') as d:
+      layer = c01_repotests.run(ctx, d)
+    ctx.coverage['traces_validated_against_impl'] = ctx.coverage.get('traces_validated_against_impl', 0) + layer['servicers_recorded']
 
 
 def replay(ctx, case):
